@@ -135,7 +135,15 @@ def c08_extra(pid, tier, seed):
             gpaths.append(p)
         with cf.ThreadPoolExecutor(2) as ex:
             list(ex.map(one, gpaths))
-        paths = paths + spaths + gpaths
+        # tailing consumers against a publisher: no gap although nothing is deleted
+        ppaths = []
+        for i in range(2):
+            p = os.path.join(d, 'p%02d.txt' % i)
+            open(p, 'w').write('cpollstress %d %d\n' % ((4, 300) if tier == 'quick' else (40, 500)))
+            ppaths.append(p)
+        with cf.ThreadPoolExecutor(2) as ex:
+            list(ex.map(one, ppaths))
+        paths = paths + spaths + gpaths + ppaths
         # the protocol model on the same placements
         mp = os.path.join(d, 'model-placements.txt')
         open(mp, 'w').write('\n'.join(mlines) + '\n')
